@@ -310,13 +310,28 @@ func carriesStrings(c pcell) bool {
 
 // valuesPerCell: string-bearing cells sweep the classes; the others take k values
 func valuesPerCell(c pcell, k int) int {
+	if takesEmptyString(c) {
+		return len(stringClasses) + 1
+	}
 	if carriesStrings(c) && k < len(stringClasses) {
 		return len(stringClasses)
 	}
 	return k
 }
 
+// takesEmptyString: a string header may be sent with an empty value ("X-Note:"), which is a value, not an absent
+// parameter: the handler receives "" (a pointer to "" for an optional one)
+// (a REQUIRED styled parameter with an empty value is refused by the pinned runtime's binder - "parameter is empty, can't
+// bind its value" - so the empty value is sent for pass-through headers and for optional styled ones)
+func takesEmptyString(c pcell) bool {
+	return c.Loc == "header" && c.Shape == "string" && (c.Kind == "pass" || (c.Kind == "styled" && !c.Required))
+}
+
 func genValueAt(rng *rand.Rand, c pcell, i int) pvalue {
+	if takesEmptyString(c) && i == len(stringClasses) {
+		b, _ := json.Marshal("")
+		return pvalue{JSON: b, Atoms: []string{""}, Class: "empty"}
+	}
 	if carriesStrings(c) {
 		forcedClass = stringClasses[i%len(stringClasses)]
 	}
